@@ -70,7 +70,7 @@ MInvRefLoops == Ready => InvRefLoops
 C(op, a, b) == [op |-> op, a |-> a, b |-> b]
 AlphaFull == { C("run", 0, 0), C("attach", 0, 0), C("pause", 0, 0), C("resume", 0, 0), C("step", 1, 0),
                C("step", 2, 0), C("bp_count", 2, 1), C("bp_count", 1, 0), C("bp_time", 1, 1),
-               C("bp_label", 2, 0), C("clear", 0, 0), C("hook", 1, 0), C("reset", 0, 0) }
+               C("bp_label", 2, 0), C("bp_metric", 0, 1), C("clear", 0, 0), C("hook", 1, 0), C("reset", 0, 0) }
 AlphaCore == { C("run", 0, 0), C("pause", 0, 0), C("resume", 0, 0), C("step", 1, 0), C("step", 2, 0),
                C("bp_count", 2, 1), C("bp_time", 1, 0), C("hook", 1, 0), C("reset", 0, 0) }
 =============================================================================
